@@ -1004,3 +1004,8 @@ impl From<proto::Status> for StatusCode {
         }
     }
 }
+
+#[cfg(kani)]
+pub(crate) mod verif {
+    include!(concat!(env!("LIBP2P_VERIF"), "/hooks/relay_behaviour.rs"));
+}
